@@ -500,10 +500,24 @@ func (fc *FnCtx) specCall(env *Env, e *Expr) Val {
 		if len(e.Args) >= 2 && e.Args[0].Kind == "ident" {
 			gi := fc.eng.globals[e.Args[0].Name]
 			if gi != nil {
+				lit := func(vals []*Term, idx *Term) *Term {
+					if idx.isInt() && idx.Val.IsInt64() && idx.Val.Int64() >= 0 && idx.Val.Int64() < int64(len(vals)) {
+						return vals[idx.Val.Int64()]
+					}
+					return nil
+				}
 				if gi.Kind == "table" && len(e.Args) == 2 {
+					fc.usedGlobals[gi.Name] = true
+					if v := lit(gi.Ints, arg(1).T); v != nil {
+						return mathInt(v)
+					}
 					return mathInt(mkSelect(fc.tableTerm("T_"+gi.Name, gi.Ints), arg(1).T))
 				}
 				if gi.Kind == "structtable" && len(e.Args) == 3 && e.Args[1].Kind == "ident" {
+					fc.usedGlobals[gi.Name] = true
+					if v := lit(gi.Fields[e.Args[1].Name], arg(2).T); v != nil {
+						return mathInt(v)
+					}
 					return mathInt(mkSelect(fc.tableTerm("T_"+gi.Name+"_"+e.Args[1].Name, gi.Fields[e.Args[1].Name]), arg(2).T))
 				}
 			}
